@@ -24,10 +24,20 @@ UniqueNumberSpelling(s, v) ==
    /\ HasArrWithDec(v)
    /\ \E sub \in SubSchemas(s) : Has(sub, "uniqueItems")
 
+(* F-C01-3: visitJSON takes a Go int (int32, int64) for a number, but visitEnumOperation has numeric  *)
+(* cases for json.Number and int64 only: an int -- at the top or inside an array/object -- is compared  *)
+(* with reflect.DeepEqual against the float64 the enum member holds and never equals it.  Only the form *)
+(* "og" (integral numbers as Go int), only where the float64 form of the same pair is judged correctly. *)
+EnumGoInt(s, v) ==
+   /\ HasNum(v)
+   /\ \E sub \in SubSchemas(s) : Has(sub, "enum") /\ \E i \in DOMAIN sub.enum : HasNum(sub.enum[i])
+
 Class(line, i, form, v, want) ==
    IF form = "on" /\ line.of[i] = want /\ line.om[i] = want
    THEN IF EnumNestedNumber(line.s, v) THEN "enum_nested_number_jsonnumber"
         ELSE IF UniqueNumberSpelling(line.s, v) THEN "uniqueitems_number_spelling_jsonnumber"
         ELSE "none"
+   ELSE IF form = "og" /\ line.of[i] = want /\ line.om[i] = want
+   THEN IF EnumGoInt(line.s, v) THEN "enum_number_goint" ELSE "none"
    ELSE "none"
 =============================================================================
